@@ -5,6 +5,7 @@ from __future__ import annotations
 import re
 import sys
 from decimal import Decimal
+from functools import partial
 from itertools import islice
 from typing import TYPE_CHECKING
 from typing import Any
@@ -902,6 +903,7 @@ class Filter:
     def evaluate(self, left: object, context: RenderContext) -> object:
         func = context.filter(self.name, token=self.token)
         positional_args, keyword_args = self.evaluate_args(context)
+        self._check_reserved_keywords(func, keyword_args)
         try:
             return func(left, *positional_args, **keyword_args)
         except (TypeError, ValueError, ArithmeticError) as err:
@@ -913,6 +915,7 @@ class Filter:
     async def evaluate_async(self, left: object, context: RenderContext) -> object:
         func = context.filter(self.name, token=self.token)
         positional_args, keyword_args = await self.evaluate_args_async(context)
+        self._check_reserved_keywords(func, keyword_args)
 
         try:
             return func(left, *positional_args, **keyword_args)
@@ -921,6 +924,24 @@ class Filter:
         except LiquidTypeError as err:
             err.token = self.token
             raise err
+
+    def _check_reserved_keywords(
+        self, func: object, keyword_args: dict[str, object]
+    ) -> None:
+        """Raise a `LiquidTypeError` if _keyword_args_ would replace an injected one.
+
+        The render context and environment are passed to filters that ask for them as
+        keyword arguments. An argument with the same name given in the template must
+        not take their place.
+        """
+        if isinstance(func, partial):
+            injected = func.keywords
+            for name in keyword_args:
+                if name in injected:
+                    raise LiquidTypeError(
+                        f"{self.name}: unexpected keyword argument {name!r}",
+                        token=self.token,
+                    )
 
     def evaluate_args(
         self, context: RenderContext
